@@ -152,13 +152,14 @@ impl Router {
             macro_rules! allow_methods {
                 ($($method:ident),*) => {{
                     let mut methods = Vec::new();
-                    if let Some(registered) = self.routes.get(&route) {
-                        $(
-                            if registered.get(&Method::$method).is_some() {
-                                methods.push(stringify!($method))
-                            }
-                        )*
-                    }
+                    $(
+                        if self.routes.iter().any(|(r, registered)|
+                            r.is_same_route_as(&route) &&
+                            registered.get(&Method::$method).is_some()
+                        ) {
+                            methods.push(stringify!($method))
+                        }
+                    )*
                     methods
                 }}
             }
@@ -218,13 +219,15 @@ impl Router {
         // handler of every merged route know all methods registered for it.
         for another_route in another_routes.routes.keys() {
             let merged = RouteSegments::merged(route.clone(), another_route.clone());
-            let Some(registered) = self.routes.get(&merged) else {continue};
             let methods = {
                 macro_rules! allow_methods {
                     ($($method:ident),*) => {{
                         let mut methods = Vec::new();
                         $(
-                            if registered.get(&Method::$method).is_some() {
+                            if self.routes.iter().any(|(r, registered)|
+                                r.is_same_route_as(&merged) &&
+                                registered.get(&Method::$method).is_some()
+                            ) {
                                 methods.push(stringify!($method))
                             }
                         )*
